@@ -1,5 +1,6 @@
 import Ymq.Drv.Util
 import Ymq.Model.Relations
+import Ymq.Model.RelationsWalk
 import Ymq.Model.Pseudoprime
 
 /-!
@@ -20,6 +21,9 @@ history         items joined by `;`, item = `<rel>|<pq>` or `<tid>|<rel>|<pq>`, 
   final_replay n p,p,.. rel;rel;.. i,i;i,i,i;..  -> d,d,.. | - | panic
       (model of `final_step` around the kernel solver: factor base primes in index order, relations,
        kernel vectors as index lists into the filtered relations; `crate::pseudoprime` = C06 model)
+  rs_history_stack ..                    -> same request and answer as rs_history, answered with the
+                                            explicit-stack model of walk_doubles (Model/RelationsWalk.lean)
+  rs_history_stats ..                    -> `cycles=<count> stats=..` only, explicit-stack model
   rs_history n fbsize maxlarge history   -> rec;rec;...;rec | cycles=<count> partial=.. doubles=.. rev=.. stats=..
                                             or `panic@<i>` (the i-th add, 0-based, does not return)
       rec = <tag>{=<rel of a newly published cycle>}*
@@ -111,15 +115,26 @@ def showStore (s : Store) : String :=
   let rev := if s.doublesRev.isEmpty then "-" else "+".intercalate (s.doublesRev.map fun e => s!"{e.1},{e.2}")
   s!"cycles={s.cycles.length} partial={part} doubles={dbl} rev={rev} stats={s.nPartials},{s.nDoubles},{s.nCombined12},{showList s.nCycles}"
 
-def historyLoop : List (Relation × Option (Nat × Nat)) → Nat → Store → List String → String
+/-- `addF` = `add` (recursive walk model) or `addStack` (explicit-stack walk model) -/
+def historyLoop (addF : Relation → Option (Nat × Nat) → Store → M Store) :
+    List (Relation × Option (Nat × Nat)) → Nat → Store → List String → String
   | [], _, s, acc => ";".intercalate acc.reverse ++ " | " ++ showStore s
   | (r, pq) :: t, i, s, acc =>
-    match add r pq s with
+    match addF r pq s with
     | .error _ => s!"panic@{i}"
     | .ok s' =>
       let news := s'.cycles.drop s.cycles.length
       let rec_ := "=".intercalate (tagOf r pq s s' :: news.map showRel)
-      historyLoop t (i + 1) s' (rec_ :: acc)
+      historyLoop addF t (i + 1) s' (rec_ :: acc)
+
+/-- counters only (long chains: the store dump is quadratic) -/
+def statsLoop (addF : Relation → Option (Nat × Nat) → Store → M Store) :
+    List (Relation × Option (Nat × Nat)) → Nat → Store → String
+  | [], _, s => s!"cycles={s.cycles.length} stats={s.nPartials},{s.nDoubles},{s.nCombined12},{showList s.nCycles}"
+  | (r, pq) :: t, i, s =>
+    match addF r pq s with
+    | .error _ => s!"panic@{i}"
+    | .ok s' => statsLoop addF t (i + 1) s'
 
 def showM {α} (f : α → String) : M α → String
   | .ok a => f a
@@ -164,7 +179,15 @@ def handleRelations : Handler
   | ["rs_history", n, fbsize, maxlarge, h] => do
     let n ← parseNat n; let fbsize ← parseNat fbsize; let maxlarge ← parseNat maxlarge
     let h ← parseHistory h
-    some (historyLoop h 0 (Store.new n fbsize maxlarge) [])
+    some (historyLoop add h 0 (Store.new n fbsize maxlarge) [])
+  | ["rs_history_stack", n, fbsize, maxlarge, h] => do
+    let n ← parseNat n; let fbsize ← parseNat fbsize; let maxlarge ← parseNat maxlarge
+    let h ← parseHistory h
+    some (historyLoop addStack h 0 (Store.new n fbsize maxlarge) [])
+  | ["rs_history_stats", n, fbsize, maxlarge, h] => do
+    let n ← parseNat n; let fbsize ← parseNat fbsize; let maxlarge ← parseNat maxlarge
+    let h ← parseHistory h
+    some (statsLoop addStack h 0 (Store.new n fbsize maxlarge))
   | _ => none
 
 end Ymq.Drv
